@@ -10,7 +10,7 @@ use serde::de::DeserializeOwned;
 use serde::Serialize;
 use serde_json::json;
 
-pub const FUZZ_TARGETS: [&str; 12] = ["C02", "C04", "C05", "C09", "C11", "C13", "C14", "C15", "C17", "C18", "C19", "C20"];
+pub const FUZZ_TARGETS: [&str; 13] = ["C02", "C04", "C05", "C09", "C11", "C12", "C13", "C14", "C15", "C17", "C18", "C19", "C20"];
 
 fn run_case<V: DeserializeOwned + Serialize>(id: &str, sub: &str, data: &[u8], max_seq: usize, normalize: impl Fn(&mut V) -> bool, eval: impl Fn(&V) -> Eval) -> Result<(), String> {
     let mut case: V = match from_bytes(data, max_seq) {
@@ -231,6 +231,55 @@ pub fn fuzz(id: &str, data: &[u8]) {
                 true
             },
             c11::eval,
+        ),
+        "C12" => run_case(
+            id,
+            "contexts",
+            data,
+            120,
+            |c: &mut crate::spec::Spec| {
+                use crate::spec::Spec;
+                match c {
+                    Spec::Pmh { variant, m, items, .. } => {
+                        *m = crate::pmh::min_m(*variant) + *m % 64;
+                        let mut seen = std::collections::HashSet::new();
+                        items.retain(|p| p.0 != u64::MAX && seen.insert(p.0));
+                        items.iter_mut().for_each(|p| {
+                            norm_weight(&mut p.1);
+                            p.1 .0 = p.1 .0.clamp(1e-300, 1e300);
+                        });
+                        !items.is_empty()
+                    }
+                    Spec::ShaStr { m, items } => {
+                        *m = 2 + *m % 64;
+                        let mut seen = std::collections::HashSet::new();
+                        items.retain(|p| !p.0.starts_with('\u{0}') && seen.insert(p.0.clone()));
+                        items.iter_mut().for_each(|p| {
+                            norm_weight(&mut p.1);
+                            p.1 .0 = p.1 .0.clamp(1e-300, 1e300);
+                        });
+                        !items.is_empty()
+                    }
+                    Spec::Unw { m, ss, items, pres, .. } => {
+                        *m = 1 + *m % 64;
+                        norm_ss(ss, *m);
+                        dedup_keep_order(items);
+                        norm_presentation(pres);
+                        !items.is_empty()
+                    }
+                    Spec::Ord { m, l, seq, .. } => {
+                        *m = 1 + *m % 64;
+                        *l = 1 + *l % 5;
+                        seq.iter_mut().for_each(|x| *x %= 12);
+                        while seq.len() < *l {
+                            seq.push(seq.len() as u16 % 3);
+                        }
+                        seq.truncate(40);
+                        true
+                    }
+                }
+            },
+            c12::eval_fuzz,
         ),
         "C13" => run_case(
             id,
